@@ -232,6 +232,25 @@ CHECKS['C11'] = dict(
               'specification oracles (RFC 4122, key-seed algorithm, PRO layout, RFC 4648)',
     design='C11')
 
+CHECKS['C16'] = dict(
+    text='Theorems (unbounded over request sequences, error lists, counter states and option texts): C16_inject_exact (one 5xx entry '
+         'with failures=F over ANY request sequence of a session: the i-th request gets the synthetic status iff it addresses the '
+         'position and the number of earlier addressed requests is not F modulo F+1), C16_only_addressed_media / _manifest (a request '
+         'no entry addresses gets no synthetic answer and changes no counter), C16_only_requested_codes, C16_manifest_update_count, '
+         'C16_plain_entries_always_fire, C16_counters_independent, C16_time_addresses_containing_segment, '
+         'C16_option_reader_extends_c07, C16_total_options_never_400 (over the generated option table). Tied to /repo by whole-session '
+         'differential runs over HTTP against the extracted state machine (media and manifest requests interleaved), by '
+         'calculate_injected_error_segments vs time_to_segment, and by DashOption.from_string vs parse_any on hostile text. '
+         'The open-ended half of the property (no request answers 5xx, raises an unreported exception type or runs without bound) is '
+         'NOT a theorem: it is searched over every GET route x option name x hostile values, streams with missing pieces, corrupted '
+         'MP4 input to the parser and to upload / index.',
+    note=TB + 'PARTIAL by nature: the absence of 5xx over an open-ended input space cannot be stated over a finite model of the handlers; '
+         'that half is a search which reports what it reaches (every real 5xx, hang or unreported exception type is a violation unless '
+         'its call site is a listed known finding).',
+    technique='Coq proof (state-machine invariant by induction over the request sequence, modular counting) + generated option table + '
+              'whole-session HTTP differential correspondence; search harness (fuzzing, not proof) for the no-5xx half',
+    design='C16')
+
 NOT_YET = {
 }
 
